@@ -132,6 +132,11 @@ class Polynomial(Contract):
                 names=NamesV(v.names) if names is None else names, dtype=kw.get("dtype"), allocation=kw.get("allocation")), node)
         if kw or len(args) != 1:
             raise U("polynomial(...) with keywords at a call site", node)
+        from contracts.numeric import NumpyResult
+        if isinstance(v, NumpyResult):
+            r = Poly(ex.ctx, ex.ctx.fresh("numeric"), region=Region("fresh", "polynomial(numeric result)"))
+            r.of_numeric = v
+            return r
         if isinstance(v, IndetElem):
             return v
         if isinstance(v, Arr):
